@@ -593,7 +593,8 @@ EXTRA_CORPUS = [
     "*{a,b*}", "{a*,b}", "a/<b/**:1,>", "$-*.*", "(?i)a/(?-i)b", "{(?i)a,b}c", "a{/b,/c}",
     "a/{b/,c/}d", "<a/b/:1,2>c", "{a/b}c*", "<a/b:1>c*", "{a/b}/c", "<a/:2>b*", "a{/b}c*", "{a/b}c/*",
     "x/{a/b}c?", "<a/:2>b/*", "{a/b}{c}*", "{src/bin,tests}/*.rs", "src/{bin/*,lib}.rs", "<*/:1,2>*.rs",
-    "{a/b,c}/*", "a/{b/c,d}/*", "<a/:1,2>b", "x/{a/**,b}", "{a/**,b}/c", "<a/b:2>/*", "[!z-a]", "[z-a]", "src/[!9-0]*.rs", "{a,b/[!z-a]}", "<[!b-a]:1,3>",
+    "{a/b,c}/*", "a/{b/c,d}/*", "<a/:1,2>b", "x/{a/**,b}", "{a/**,b}/c", "<a/b:2>/*", "<*/*/:1,>*", "a/<*/*/:1,>*", "<*/*/>", "<*/*/:2,>*", "<*/*/*/:1,>*", "<*/>*", "<*/:1,>*", "<*/*/>*",
+    "<*/*/:1,3>*", "<a/*/:1,>*", "<*/:2,>", "<*/*/:1,>", "[!z-a]", "[z-a]", "src/[!9-0]*.rs", "{a,b/[!z-a]}", "<[!b-a]:1,3>",
     "<</a:1,>:0,>b", "<{</a:1,>,</b:1,>}:0,>", "<</a:1,>>b", "<</a:1,>:0,1>b", "{</a:1,>,b}", "<</**/a:1,>:0,>b",
     "<{/a,/b}:1,>", "<</a:1,2>:0,2>", "/{a,b}", "/<a:1,>", "{a,b}{c,d}", "<a:1,2><b:0,1>",
 ]
